@@ -322,7 +322,20 @@ func (ai *AI) step(fn *ssa.Function, in ssa.Instruction, s *aiState) bool {
 		a := ai.val(x.X, s).clone()
 		if kindOf(x.Type()) == 'i' && a.K == 'i' {
 			// narrowing conversions keep the interval only if it fits
-			if sz := types.SizesFor("gc", "amd64").Sizeof(x.Type()); sz < 8 || (ai.c.is386() && isPlainInt(x.Type())) {
+			sizeOf := func(t types.Type) int64 {
+				if ai.c.is386() && isPlainInt(t) {
+					return 4
+				}
+				return types.SizesFor("gc", "amd64").Sizeof(t)
+			}
+			signed := func(t types.Type) bool {
+				b, ok := t.Underlying().(*types.Basic)
+				return ok && b.Info()&types.IsUnsigned == 0
+			}
+			// a conversion into a type at least as wide and of the same signedness keeps every value (int32 → int,
+			// also where int has 32 bits)
+			widening := kindOf(x.X.Type()) == 'i' && sizeOf(x.X.Type()) <= sizeOf(x.Type()) && signed(x.X.Type()) == signed(x.Type())
+			if sz := types.SizesFor("gc", "amd64").Sizeof(x.Type()); !widening && (sz < 8 || (ai.c.is386() && isPlainInt(x.Type()))) {
 				lim := int64(1) << 31
 				if sz == 1 {
 					lim = 1 << 7
